@@ -14,6 +14,8 @@ use serde_json::json;
 use std::collections::{BTreeMap, BTreeSet};
 
 pub const NAMES: &[&str] = &["a", "b", "c", "d", "f", "g", "fs", "r", "s"];
+/// names the generator uses for parameters and do-block locals
+pub const LOCAL_NAMES: &[&str] = &["x", "y", "t", "m", "n", "k", "o", "v", "w", "xs", "acc", "more", "rest", "deep"];
 
 #[derive(Clone, Debug, Serialize, Deserialize, PartialEq)]
 pub enum Fault {
@@ -702,6 +704,26 @@ pub fn gen_scenario(rng: &mut Rng) -> Scenario {
         g.bound.insert(name.to_string(), Ty::Fun);
         stmts.push(SStmt { stmt: Stmt::Expr(assign(name, l)), kind: "bind-lambda".into() });
     }
+    // some contain a deep chain of scopes: ten nested do-blocks reading the outermost local at
+    // the bottom, or a late-bound read of a caller's parameter from ten calls further down
+    if g.rng.chance(1, 8) {
+        if g.rng.chance(1, 2) {
+            let mut e = bin("+", id("deep"), id("t"));
+            for lvl in (0..10).rev() {
+                let local = if lvl == 0 { "deep".to_string() } else { format!("l{}", lvl) };
+                let val = if lvl == 9 { assign("t", num(1)) } else { assign(&local, num(40 + lvl as i64)) };
+                e = doblk(vec![val], e);
+            }
+            // outermost block binds `deep`; level 9 binds `t`
+            stmts.push(SStmt { stmt: Stmt::Expr(e), kind: "deep-do-chain".into() });
+        } else {
+            stmts.push(SStmt { stmt: Stmt::Expr(assign("g", lam(&["k"], cond(bin(".<=", id("k"), num(0)), id("n"), call(id("g"), vec![bin("-", id("k"), num(1))]))))), kind: "bind-lambda".into() });
+            g.bound.insert("g".to_string(), Ty::Fun);
+            stmts.push(SStmt { stmt: Stmt::Expr(assign("f", lam(&["n"], call(id("g"), vec![num(10)])))), kind: "bind-lambda".into() });
+            g.bound.insert("f".to_string(), Ty::Fun);
+            stmts.push(SStmt { stmt: Stmt::Expr(call(id("f"), vec![num(7)])), kind: "call-bound".into() });
+        }
+    }
     // some start with a closure factory and a function made by it (what that function captured
     // must not depend on later top-level bindings of the same names)
     if g.rng.chance(1, 6) {
@@ -866,6 +888,15 @@ impl Model {
         for (k, v) in &root {
             o.keys.insert(k.clone(), sess.canon_of(v));
         }
+        // a name that is not a key of the root environment must not evaluate at top level
+        // (do-block locals, parameters and captured names of finished calls)
+        for n in NAMES.iter().chain(LOCAL_NAMES.iter()) {
+            if !root.contains_key(*n) {
+                let r = sess.probe(n);
+                self.stats.inc("probes");
+                o.probes.insert(("<unbound>".to_string(), n.to_string()), (if r.0 == Status::Ok { Status::Ok } else { Status::Err }, None));
+            }
+        }
         for (k, v) in &root {
             if k == "inputs" || !self.tc.contains(k) {
                 continue;
@@ -983,6 +1014,12 @@ impl Model {
                         self.fail("stability-probe", gi, format!("probe `{}` (value of {}) changed from {:?} to {:?}", src.1, src.0, r0, r1));
                     }
                 }
+            }
+        }
+        // 0b. a name that is not a root key does not evaluate
+        for ((root, name), r) in &after.probes {
+            if root == "<unbound>" && r.0 == Status::Ok {
+                self.fail("leak-visible-by-lookup", gi, format!("{} is not a key of the root environment but evaluates at top level", name));
             }
         }
         // 3. reserved names never bound; inputs unchanged
